@@ -396,6 +396,39 @@ func (e *engine) coverage(ops []opRec, lines []logLine, trace []string) {
 		}
 	}
 	c.Count("callers_losing_3_cas_in_a_row", int64(lostRuns))
+	if e.sch != nil && e.sch.stalls > 0 {
+		c.Count("scheduler_stalls", int64(e.sch.stalls))
+	}
+	if d.Proxy != "" {
+		// calls that were inside the same cache proxy at the same time
+		domain := func(a int) int {
+			switch {
+			case d.Kind == "remote" && d.Proxy == "apricot":
+				return 0
+			case d.Kind == "remote":
+				return a / d.ClientShare
+			}
+			return a / d.Share
+		}
+		over := 0
+		for i, a := range ops {
+			if a.Kind != "call" {
+				continue
+			}
+			for j, b := range ops {
+				if i != j && b.Kind == "call" && domain(a.Actor) == domain(b.Actor) && a.Call < b.Ret && b.Call < a.Ret {
+					over++
+					break
+				}
+			}
+		}
+		c.Count("histories_through_cache_proxy", 1)
+		c.Count("histories_through_cache_proxy_"+d.Kind+"_"+d.Proxy, 1)
+		c.Count("calls_overlapping_inside_proxy", int64(over))
+		if over > 0 {
+			c.Count("histories_with_calls_overlapping_inside_proxy", 1)
+		}
+	}
 	if d.Kind == "remote" {
 		c.Count("remote_histories", 1)
 		c.Count("remote_histories_"+d.Mode, 1)
@@ -473,7 +506,7 @@ func (e *engine) coverage(ops []opRec, lines []logLine, trace []string) {
 	}
 	if overlap {
 		c.Count("histories_with_overlapping_calls", 1)
-		c.Nontrivial(vlib.Hash(d.Kind, d.SrvRest != nil, d.W, d.Share, d.Mode, d.Policy, d.Faults, len(d.Foreign), d.Preset < 0, kp, okB, errB, nFalse > 0, nSeverAfterTrue > 0))
+		c.Nontrivial(vlib.Hash(d.Kind, d.Proxy, d.SrvRest != nil, d.W, d.Share, d.Mode, d.Policy, d.Faults, len(d.Foreign), d.Preset < 0, kp, okB, errB, nFalse > 0, nSeverAfterTrue > 0))
 	}
 	var sb strings.Builder
 	ap := append([]logLine(nil), lines...)
